@@ -111,7 +111,10 @@ def gen_doc(rng):
         else:
             body.append("<textarea>%s</textarea><!--c-->%s" % (esc(txt()), esc(txt())))
     pre = rng.choice(["<!DOCTYPE html>", "<!DOCTYPE html>", ""])
-    return "%s<html><head>%s</head><body>%s</body></html>" % (pre, "".join(head), "".join(body)), decl
+    hattr = rng.choice(["", "", "", " lang=\"en\"", " data-k=\"v\" class=\"h\"", " profile=\"%s\"" % esc(txt())])
+    hlead = rng.choice(["", "", "", "<!--lead-->", "\n  "])
+    return "%s<html%s><head%s>%s%s</head><body>%s</body></html>" % (
+        pre, rng.choice(["", "", " lang=\"x\""]), hattr, hlead, "".join(head), "".join(body)), decl
 
 
 def declares(attrs, want):
@@ -232,6 +235,14 @@ def judge(ctx, case):
     except UnicodeDecodeError as e:
         ctx.violation("bytes-do-not-decode-strictly", case, "%s: %r" % (enc, e))
         return
+    # 1b. lexically inside head: with every tag written out, no <meta can precede the head start tag
+    if not omit:
+        hpos = b.find(b"<head")
+        mpos = b.find(b"<meta")
+        ctx.count("lexical_position_checked")
+        if hpos >= 0 and 0 <= mpos < hpos:
+            ctx.violation("meta-written-before-head-start-tag", case, "encoding %s: bytes %r" % (enc, b[:160]))
+            return
     # 2./3. hint-free parse
     pb = html5parser.HTMLParser(h5.tb("etree-full"))
     A = canon.canon_etree(pb.parse(b))
